@@ -815,6 +815,16 @@ func chunkSegment(init *mp4.InitSegment, seg *mp4.MediaSegment, segMeta segMeta,
 		ch.dur = uint64(chunkDur)
 		chunks = append(chunks, ch)
 	}
+	// Event messages (like SCTE-35) are not samples: the first chunk carries those of the segment
+	if len(chunks) > 0 {
+		for _, f := range seg.Fragments {
+			for _, c := range f.Children {
+				if emsg, ok := c.(*mp4.EmsgBox); ok {
+					chunks[0].frag.AddEmsg(emsg)
+				}
+			}
+		}
+	}
 
 	return chunks, nil
 }
